@@ -44,6 +44,10 @@ def _run_harness(hbin, args):
         if not l:
             continue
         r = l.split("\t")
+        if r[0] == "json":
+            if runs:
+                runs[-1].append(r[1])
+            continue
         (tabs if r[0] == "tab" else runs).append(r)
     return tabs, runs
 
@@ -176,6 +180,7 @@ def _report(ctx, hbin, r, model_line, verdict, kind_of):
         "kind": kind_of,
         "cache": kind,
         "history": " ".join(small),
+        "requests": json.loads(rr[5]) if len(rr) > 5 else None,
         "implementation": {"observed": rr[3], "final_cache": rr[4]},
         "model": mm,
         "spec_verdict": vv,
@@ -277,9 +282,10 @@ def run(ctx):
         "input_distribution": dict(acc.branch),
         "histories_by_cache": dict(acc.bycache),
         "histories_by_generator": dict(acc.gen),
-        "exhaustive": ("all histories over 3 texts x {text only, text+hash, text+other text's hash, hash only, malformed extension, version 2}: "
+        "exhaustive_enumeration": ("all histories over 3 texts x {text only, text+hash, text+other text's hash, hash only, malformed extension, version 2}: "
                        + ("length <=3 on map/lru1/lru2/lru3/no, length 4 on all five, length 5 on map/lru1/lru2/lru3, length 6 on lru2 up to renaming of the texts"
                           if thorough else "length <=3 on map/lru1/lru2/lru3/no, length 4 on map/lru1/lru2")),
+        "traces_validated_against_impl": acc.hist if have_driver else 0,
         "correspondence_divergences": len(acc.div),
         "spec_violations_on_implementation_traces": len(acc.specbad),
         "spec_evaluated_on": "every implementation trace (driver op chk = Apq.specOk)",
